@@ -226,6 +226,7 @@ def validate_traces(module: str, cfg: str, trace_file: Path, *, workdir: Path, n
     for m in re.finditer(r'<<\s*"REJECT"', r.out):
         vals, _ = parse_value_at(r.out, m.start())
         rejects.append(tuple(vals[1:]))
+    r.advisories = len(re.findall(r'<<\s*"ADVISORY"', r.out))
     return r, rejects
 
 
